@@ -153,6 +153,10 @@ def main(argv=None):
             cov['configs'].append({'config': cfg, 'bodies': nb, 'crates': prog.crates(), 'fact_files': prog.files})
             cov['bodies_analysed'] += nb
             rep, mod = run_property(pid, prog, cfg, args.tier)
+            stolen_fns = [n for (c, n) in prog.stolen if 'CALLSITE' not in n]
+            if stolen_fns:
+                rep.violation('floor', 'stolen-bodies:%s' % cfg, detail='MIR of %d bodies was not available to the exporter (e.g. %s); '
+                              'the analysis would be incomplete' % (len(stolen_fns), stolen_fns[0]))
             if nb < floor:
                 rep.violation('floor', 'bodies<%d:%s' % (floor, cfg), detail='only %d bodies analysed in config %s' % (nb, cfg))
             reports[cfg] = rep
